@@ -78,5 +78,8 @@ ConfigFactOK(e) ==
 IncludeFactOK(e) == e.compiled = 1
 \* the API table: an operation the width-1 vector offers is declared for every
 \* wider vector of that element type, and every declared operation is defined
-ApiFactOK(e) == e.declared_w1 = 1 => (e.declared = 1 /\ e.defined = 1)
+\* ... and including the headers from two translation units of one program links
+\* (no non-inline definitions in headers)
+ApiFactOK(e) == /\ e.declared_w1 = 1 => (e.declared = 1 /\ e.defined = 1)
+                /\ ("multiple" \in DOMAIN e => e.multiple = 0)
 =============================================================================
